@@ -65,7 +65,7 @@ class Ctx:
     # ------------------------------------------------------------------ TLC
     def tlc(self, family, module, cfg, **kw):
         """Model-check; model-level errors (other than reported invariant violations) are exit 2."""
-        kw.setdefault("workers", min(16, os.cpu_count() or 4))
+        kw.setdefault("workers", int(os.environ.get("VERIF_TLC_WORKERS") or min(12, os.cpu_count() or 4)))
         expect_viol = kw.pop("allow_violation", False)
         r = tlcmod.run_tlc(family, module, cfg, **kw)
         self.tlc_runs.append({"module": module, "cfg": cfg, "generated": r.generated,
